@@ -172,6 +172,35 @@ fn gen_text(rng: &mut Rng) -> String {
             }
             return t;
         }
+        21..=32 => {
+            // lines whose byte length sits right at a block boundary (B*j - 2 .. B*j + 1 for block
+            // sizes 16..8192), ended by \r\n, \r or \n: a scanner that works block-wise from the
+            // start of each line meets the terminator (or the \r\n pair) across two blocks
+            let mut t = String::new();
+            let lines = 1 + rng.below(4);
+            for l in 0..lines {
+                let b = *rng.pick(&[16usize, 32, 64, 128, 256, 512, 1024, 4096, 8192]);
+                let j = 1 + rng.below_usize(3);
+                let len = (b * j + 1).saturating_sub(rng.below_usize(4));
+                let mut bytes = 0usize;
+                while bytes < len {
+                    if len - bytes >= 4 && rng.chance(1, 50) {
+                        t.push('👌');
+                        bytes += 4;
+                    } else if len - bytes >= 2 && rng.chance(1, 30) {
+                        t.push('é');
+                        bytes += 2;
+                    } else {
+                        t.push('a');
+                        bytes += 1;
+                    }
+                }
+                if l + 1 < lines || rng.chance(1, 2) {
+                    t.push_str(*rng.pick(&["\r\n", "\r\n", "\r", "\n"]));
+                }
+            }
+            return t;
+        }
         20 => {
             // huge: more than 65536 lines / bytes
             let unit = *rng.pick(&["\n", "a\n", "\r\n"]);
